@@ -21,9 +21,12 @@ Rec == ndJsonDeserialize(IOEnv.TRACE)
 VARIABLES
     l,      \* next line of the trace
     pend,   \* reads in flight: [tid -> [loc, vals]] (vals = answers seen since the call)
-    closed  \* the handle is closed (between Closed and Reopened)
+    closed, \* the handle is closed (between Closed and Reopened)
+    sUnsynced, \* <<log file, rid>>: records appended and not yet fdatasync'ed (syscall events)
+    sDirty,    \* table files stored to since their last msync
+    sNeed      \* <<log file, table file>>: msync of the table needed before the log may go
 
-tvars == <<vars, l, pend, closed>>
+tvars == <<vars, l, pend, closed, sUnsynced, sDirty, sNeed>>
 
 Ev == Rec[l]
 IsEvent(e) == l <= Len(Rec) /\ Rec[l].e = e
@@ -34,14 +37,55 @@ NoPend == [t \in {} |-> 0]
 \* every step moves the cursor and lets the reads in flight see the new state
 GetNext(x) == IF covl'[x].cid # 0 THEN covl'[x].v
               ELSE IF lovl'[x].rid # 0 THEN Vis(lovl'[x].e) ELSE Vis(tabs'[x])
+(***************************************************************************)
+(* C12 on the observed file operations (interposed fdatasync / fsync /     *)
+(* msync / ftruncate / unlink joined with the hook events):                *)
+(*  - no table byte is modified on behalf of a record before the log bytes *)
+(*    of that record were synced;                                          *)
+(*  - no log file is truncated or deleted before every table written on    *)
+(*    behalf of its records was msync'ed after those writes.               *)
+(***************************************************************************)
+LogName(id) == "log" \o ToString(id)
+
+SysOK ==
+    LET e == Rec[l] IN
+    /\ (SyncWal /\ e.e = "EnactBegin" /\ e.a[2] = 0) => \A p \in sUnsynced : p[2] # e.a[1]
+    /\ (SyncData /\ e.e = "LogTruncate") => \A p \in sNeed : p[1] # LogName(e.a[1])
+    /\ (SyncData /\ e.e = "Sys" /\ e.call \in {"ftruncate0", "unlink"} /\ e.log) => \A p \in sNeed : p[1] # e.f
+
+SysUpdate ==
+    LET e == Rec[l] IN
+    CASE e.e = "EndRecord" ->
+            /\ sUnsynced' = sUnsynced \cup {<<LogName(e.a[2]), e.a[1]>>}
+            /\ UNCHANGED <<sDirty, sNeed>>
+      [] e.e = "Sys" /\ e.call \in {"fdatasync", "fsync"} /\ e.ret = 0 ->
+            /\ sUnsynced' = {p \in sUnsynced : p[1] # e.f}
+            /\ UNCHANGED <<sDirty, sNeed>>
+      [] e.e = "Sys" /\ e.call = "msync" /\ e.ret = 0 ->
+            /\ sDirty' = sDirty \ {e.f}
+            /\ sNeed' = {p \in sNeed : p[2] # e.f}
+            /\ UNCHANGED sUnsynced
+      [] e.e = "TabWrite" ->
+            /\ sDirty' = sDirty \cup {e.f}
+            /\ UNCHANGED <<sUnsynced, sNeed>>
+      [] e.e = "LogEof" ->
+            /\ sNeed' = sNeed \cup {<<LogName(e.a[1]), tf>> : tf \in sDirty}
+            /\ UNCHANGED <<sUnsynced, sDirty>>
+      [] e.e \in {"Crash", "Reopened", "Recovered"} ->
+            /\ sUnsynced' = {} /\ sDirty' = (IF e.e = "Crash" THEN {} ELSE sDirty)
+            /\ sNeed' = (IF e.e = "Crash" THEN {} ELSE sNeed)
+      [] OTHER -> UNCHANGED <<sUnsynced, sDirty, sNeed>>
+
 Advance ==
     /\ l' = l + 1
+    /\ SysOK /\ SysUpdate
     /\ pend' = [t \in DOMAIN pend |->
                   [pend[t] EXCEPT !.vals = @ \cup {GetNext(pend[t].loc)}]]
 
 Stutter == UNCHANGED vars
 
 TraceInit == Init /\ l = 1 /\ pend = NoPend /\ closed = FALSE
+             /\ sUnsynced = {} /\ sDirty = {} /\ sNeed = {}
 
 ----------------------------------------------------------------------------
 (* client events *)
@@ -92,7 +136,7 @@ TGetCall ==
                   IF t = Ev.t THEN [loc |-> <<Ev.c, Ev.k>>, vals |-> {Get(<<Ev.c, Ev.k>>)}]
                   ELSE pend[t]]
     /\ l' = l + 1
-    /\ Stutter /\ UNCHANGED closed
+    /\ Stutter /\ UNCHANGED <<closed, sUnsynced, sDirty, sNeed>>
 
 TGetRet ==
     /\ IsEvent("GetRet")
@@ -100,7 +144,7 @@ TGetRet ==
     /\ Ev.v \in pend[Ev.t].vals
     /\ pend' = [t \in DOMAIN pend \ {Ev.t} |-> pend[t]]
     /\ l' = l + 1
-    /\ Stutter /\ UNCHANGED closed
+    /\ Stutter /\ UNCHANGED <<closed, sUnsynced, sDirty, sNeed>>
 
 ----------------------------------------------------------------------------
 (* log worker *)
@@ -309,7 +353,7 @@ TStoreErr ==
 \* events without a counterpart in this module (worker protocol, locks)
 Ignored == {"Locked", "Unlocking", "Shutdown", "ShutdownNotified", "StoreErrNotified", "WorkerLoopEnd",
             "WorkerExit", "CommitFullPark", "CommitFullWake", "LogThrottlePark", "LogThrottleWake",
-            "EnactCleanupWait", "CommitErr", "Defer", "Note"}
+            "EnactCleanupWait", "CommitErr", "Defer", "Note", "Sys"}
 TIgnored ==
     /\ l <= Len(Rec) /\ Rec[l].e \in Ignored
     /\ Stutter /\ Advance /\ UNCHANGED closed
@@ -333,5 +377,5 @@ TraceAccepted ==
     /\ (d - 1 = Len(Rec) \/
           PrintT(<<"TRACE-FIRST-UNMATCHED", d, IF d <= Len(Rec) THEN Rec[d] ELSE "none">>))
 
-TraceView == <<ViewNoTrace, l, pend, closed>>
+TraceView == <<ViewNoTrace, l, pend, closed, sUnsynced, sDirty, sNeed>>
 =============================================================================
